@@ -331,6 +331,29 @@ Section Proofs.
     apply got_advance. exact L.
   Qed.
 
+  (* connection loss / reconnection between batches changes nothing that was accepted *)
+  Lemma run_events_batches : forall evs st,
+    run_events verify parse_key canon decode keystr_eqb client subscribed st evs = run st (batches_of evs).
+  Proof.
+    induction evs as [|[b|] r IH]; intros st; cbn [run_events batches_of run_stream]; [reflexivity| |apply IH].
+    destruct (got st b) as [st1 vs]. rewrite IH. reflexivity.
+  Qed.
+
+  Lemma batches_of_app : forall (e1 e2 : list (event keystr msg sig)), batches_of (e1 ++ e2) = batches_of e1 ++ batches_of e2.
+  Proof.
+    induction e1 as [|[b|] r IH]; intros e2; cbn [app batches_of]; [reflexivity| |apply IH]. rewrite IH. reflexivity.
+  Qed.
+
+  Lemma seqnum_survives_reconnects_ok : forall evs1 evs2 (i : idx) old,
+    look (st_store (fst (run_events verify parse_key canon decode keystr_eqb client subscribed empty_state evs1))) i = Some old ->
+    exists new,
+      look (st_store (fst (run_events verify parse_key canon decode keystr_eqb client subscribed empty_state (evs1 ++ evs2)))) i = Some new /\
+      advance old new.
+  Proof.
+    intros e1 e2 i old L. rewrite run_events_batches in *. rewrite batches_of_app.
+    apply seqnum_strictly_increases_ok. exact L.
+  Qed.
+
   (* reading `advance` for integer sequence numbers *)
   Lemma advance_int : forall old new o, advance old new -> a_seq old = SInt o ->
     exists n, a_seq new = SInt n /\ (o <= n)%Z /\ (n = o -> new = old).
